@@ -1046,6 +1046,26 @@ func (t *translator) call(c *ast.CallExpr, lhs []ast.Expr, targets []string, fc 
 	t.assignOpaque(targets, out)
 }
 
+// a call of a function / method of the package that would be inlined
+func (t *translator) isPackageCall(c *ast.CallExpr) bool {
+	if s, ok := c.Fun.(*ast.SelectorExpr); ok && (t.isCtxRecv(s.X) || reCommander.MatchString(t.canon(s.X))) {
+		for _, k := range []string{"Commander." + s.Sel.Name, "executionContext." + s.Sel.Name} {
+			if _, ok := t.funcs[k]; ok {
+				return true
+			}
+		}
+	}
+	if id, ok := c.Fun.(*ast.Ident); ok {
+		if id.Obj != nil && t.bind[id.Obj] != nil && t.bind[id.Obj].lit != nil {
+			return true
+		}
+		if fd, ok := t.funcs[id.Name]; ok && !t.pureFuncs[id.Name] && fd.Recv == nil {
+			return true
+		}
+	}
+	return false
+}
+
 var reCommander = regexp.MustCompile(`(^|\.)commander$`)
 
 func (t *translator) assignSite(targets []string, i int, site string, out *[]stmt) {
@@ -1325,14 +1345,18 @@ func (t *translator) ret(s *ast.ReturnStmt, fc *fctx, out *[]stmt) {
 			t.emitAct(".peekTxid", out)
 			continue
 		}
+		tgt := ""
+		if i < len(fc.targets) {
+			tgt = fc.targets[i]
+		}
 		if c, ok := e.(*ast.CallExpr); ok && !t.isValueCall(c) {
 			if a := t.findAction(c); a != nil {
 				t.fail(e, "a protocol action inside a return expression")
 			}
-		}
-		tgt := ""
-		if i < len(fc.targets) {
-			tgt = fc.targets[i]
+			if t.isPackageCall(c) { // return f(x), y, nil: the call is made first
+				t.call(c, nil, []string{tgt}, fc, out)
+				continue
+			}
 		}
 		if tgt != "" {
 			v, from := t.valOf(e, fc, tgt)
